@@ -1075,13 +1075,15 @@ uint32_t adfFileWrite ( struct AdfFile * const file,
             if ( file->pos == file->fileHdr->byteSize ) {   // at EOF ?
                 // ...  create a new block
                 RETCODE rc = adfFileCreateNextBlock ( file );
-                file->currentDataBlockChanged = FALSE;
                 if ( rc != RC_OK ) {
                     /* bug found by Rikard */
                     adfEnv.wFct ( "adfWritefile : no more free sectors available" );
                     //file->curDataPtr = 0; // invalidate data ptr
+                    /* the block filled last is still the buffered one and has
+                       not been written: it stays marked as changed */
                     return bytesWritten;
                 }
+                file->currentDataBlockChanged = FALSE;
             }
             else if ( file->posInDataBlk == blockSize ) {
                 // inside the existing data (at the end of a data block )
